@@ -20,8 +20,9 @@ import traceback
 from sim.choice import derive_seed
 
 VERIF = os.path.dirname(os.path.dirname(os.path.abspath(__file__)))
-EVIDENCE_DIR = os.path.join(VERIF, 'evidence')
-REPLAY_DIR = os.path.join(VERIF, 'replays')
+_OUT = os.environ.get('VERIF_OUT') or VERIF      # self-tests on mutated copies write elsewhere
+EVIDENCE_DIR = os.path.join(_OUT, 'evidence')
+REPLAY_DIR = os.path.join(_OUT, 'replays')
 KNOWN_FILE = os.path.join(VERIF, 'known_findings.json')
 
 CASE_WALL_CAP_S = 120
